@@ -389,6 +389,11 @@ func c03Random(e *core.Env, rep *core.Report) {
 		} else {
 			rep.Count("random_judged_not_convertible", 1)
 		}
+		if !got && strings.Contains(cr.Gen.Stderr, "Goverter cannot generate converters when there are compile errors") {
+			// the generated INPUT does not compile: a bug of the generator, not a verdict about goverter
+			rep.Count("random_inputs_not_compiling", 1)
+			continue
+		}
 		if got != ex.want.OK {
 			kind := "accepts_unconvertible"
 			if ex.want.OK {
